@@ -281,6 +281,15 @@ fn collect_cached_files(cache_dir: &Path) -> Result<(Vec<CachedFile>, u64)> {
     for maybe_entry in std::fs::read_dir(cache_dir)? {
         count += 1;
         if let Ok(entry) = maybe_entry {
+            // Names that start with a dot are never cache entries:
+            // they are reserved for Kismet's own subdirectories and
+            // for the application's data.  Don't count them, and
+            // never consider them for eviction.
+            if entry.file_name().to_string_lossy().starts_with('.') {
+                count -= 1;
+                continue;
+            }
+
             let meta = match entry.metadata() {
                 Ok(meta) => meta,
                 Err(e) if is_absent_file_error(&e) => continue,
